@@ -1,7 +1,7 @@
 """C05 - shuffle / partial_shuffle are exact uniform permutations of the slice."""
 from . import common as C, gen_int as G, oracles as O
 
-LEAN_MODULE = ["Urandom.Props.C05", "Urandom.Props.C05T"]
+LEAN_MODULE = ["Urandom.Props.C05", "Urandom.Props.C05T", "Urandom.Props.C04R"]
 RULE = ("requests: shuffle / partial_shuffle(n) on slices of length 0..24 (and a few hundred), n in {0,1,len-1,len,len+1,usize::MAX,random}, "
         "scripted words realising chosen index values at both ends of their acceptance interval with interspersed rejected words; "
         "non-trivial = slice length >= 2; distinct = distinct request line. extra: complete enumeration of the index-tuple space for n <= 6 on the implementation")
@@ -89,6 +89,16 @@ def extra(binary, build, tier, rng):
     for n in ((3, 5, 6, 7) if tier == "quick" else (2, 3, 5, 6, 7, 9, 11, 15, 17, 51, 60)):
         items = ",".join(map(str, range(n)))
         ps.append(("partial_shuffle(%d elements, 1): element at the front" % n, n, 64, (lambda w, items=items: "pshuf items=%s m=1 words=%d" % (items, w)), front, (lambda w1, w2, items=items: "pshuf items=%s m=1 words=%d,%d" % (items, w1, w2))))
+    # shuffle draws through `Random::index` (not `range`): which element the FIRST draw sends to the end of the slice.  The later draws get a word
+    # that every length accepts (t * len mod 2^64 is len or 2^63 + len, never below the rejection zone 2^64 mod len < len) and never touch the end.
+    def last(res):
+        f = O.parse_ok(res)
+        return None if f is None else int(f[0].split(",")[-1])
+    T = (1 << 63) + 1
+    for n in ((9, 11, 19, 23, 27, 9 + rng.below(300), 9 + rng.below(300)) if tier == "quick" else tuple(range(9, 70)) + (100, 255, 257, 1000, 65535)):
+        items = ",".join(map(str, range(n)))
+        tail = ",".join([str(T)] * (n - 2))      # exactly the n - 2 further draws: a rejected first word makes the script run dry (no outcome)
+        ps.append(("shuffle(%d elements): element sent to the end by the first draw" % n, n, 64, (lambda w, items=items, tail=tail: "shuf items=%s words=%d,%s" % (items, w, tail)), last))
     # mid-sized slices (the element that reaches the front of a slice of n zero bytes with one mark): request bigshuf
     def frontbig(res):
         f = O.parse_ok(res)
